@@ -1,3 +1,9 @@
--- Root of the `DS` library.
+-- Root of the `DS` library: every module that `lake build DS` must check.
 import DS.Model.Sym
+import DS.Model.SymSpec
+import DS.Model.Lin
 import DS.Gen.Index
+import DS.Gen.DIndex
+import DS.Lemmas.Group
+import DS.Lemmas.RealElem
+import DS.Props.C03
